@@ -7,12 +7,14 @@ A=(
 "C08_m1 C08" "C08_m3 C08" "C09_m1 C09" "C09_m3 C09" "C10_m1 C10" "C10_m3 C10" "C11_m1 C11" "C11_m3 C11" "C12_m1 C12"
 "C13_m1 C13" "C14_m1 C14 C01" "C14_m3 C14 C03" "C15_m1 C15" "C16_m1 C16" "C16_m3 C16" "C17_m1 C17" "C17_m3 C17"
 "C18_m1 C18 C03" "C18_m3 C18" "C18_m5 C18" "C19_m1 C19" "C19_m3 C19" "C20_m1 C20"
+"C01_m3 C01" "C04_m3 C04" "C05_m3 C05 C01" "C12_m3 C12" "C13_m3 C13" "C15_m3 C15 C13" "C20_m3 C20"
 )
 B=(
 "C01_m2 C01" "C03_m2 C03" "C03_m4 C03" "C04_m2 C04 C19" "C05_m2 C05" "C06_m2 C06" "C06_m4 C06" "C07_m2 C07" "C07_m4 C07"
 "C08_m2 C08" "C08_m4 C08" "C09_m2 C09" "C09_m4 C09" "C10_m2 C10" "C10_m4 C10" "C11_m2 C11" "C11_m4 C11" "C12_m2 C12"
 "C13_m2 C13" "C14_m2 C14 C03" "C14_m4 C14 C11" "C15_m2 C15" "C16_m2 C16" "C16_m4 C16" "C17_m2 C17" "C17_m4 C17"
 "C18_m2 C18" "C18_m4 C18" "C19_m2 C19" "C19_m4 C19" "C20_m2 C20"
+"C01_m4 C01" "C04_m4 C04" "C05_m4 C05" "C12_m4 C12" "C13_m4 C13 C19" "C15_m4 C15" "C20_m4 C20"
 )
 if [ "${1:-a}" = "a" ]; then L=("${A[@]}"); else L=("${B[@]}"); fi
 for e in "${L[@]}"; do
